@@ -66,6 +66,28 @@ def gen_plan(ch: Chooser, tier: str) -> dict[str, Any]:
         plan['net']['rules'].append({'match': {'kind': 'widgets', 'method': 'PATCH', 'ctype': 'merge'},
                                      'nth': sorted(ch.sample(list(range(1, 12)), ch.int(1, 3))),
                                      'action': {'kind': 'status', 'status': ch.choice([500, 422, 403])}})
+    timers_ = [h for h in plan['operators'][0]['handlers'] if h['kind'] == 'timer']
+    if timers_ and ch.bool(0.3):
+        # targeted timing: a reason to stop the timer (the label goes) arrives exactly while the patch of its final
+        # failure is in flight; the object matches again later -- "failed for good" must survive the respawn
+        h = ch.choice(timers_)
+        h['opts']['labels'] = dict(spawning.RUN_LABEL)
+        h['opts'].pop('idle', None)
+        h['opts'].setdefault('interval', 1.0)
+        k = ch.int(0, 1)
+        h['script'] = [{'do': 'ok', 'dur': 0.0}] * k + [{'do': 'perm', 'dur': ch.choice([0.0, 0.2]), 'patch': {'status': {'final': 1}}}] + \
+            [{'do': 'ok', 'dur': 0.0}]
+        names_ = sorted({o['body']['metadata']['name'] for o in plan['objects']} |
+                        {a['body']['metadata']['name'] for a in plan['actions'] if a['do'] == 'create'})
+        name = ch.choice(names_)
+        plan['actions'].append({'t': 0.0, 'do': 'patch', 'name': name, 'patch': {'metadata': {'labels': {'run': 'yes'}}}})
+        plan['actions'].sort(key=lambda a: a['t'])
+        plan.setdefault('triggers', []).append(
+            {'on': {'what': 'h-', 'hid': h['id'], 'name': name, 'n': k},
+             'actions': [{'do': 'patch', 'name': name, 'patch': {'metadata': {'labels': {'run': 'no'}}},
+                          'delay': ch.choice([0.0, 0.0005, 0.002])},
+                         {'do': 'patch', 'name': name, 'patch': {'metadata': {'labels': {'run': 'yes'}}},
+                          'delay': ch.choice([0.5, 3.0])}]})
     plan['mode'] = 'spawning'
     plan['until'] = plan['horizon'] + 30.0
     return plan
@@ -238,6 +260,17 @@ def oracle(run: runner.Run, oc: Outcome) -> None:
             for sq in seqs:
                 if _check_sequence(oc, h['kind'], uid, hid, h, sq, default_backoff):
                     limited += 1
+            # a timer that has failed for good is stopped for the lifetime of the process: it is neither retried nor
+            # started anew when the object is matched again later (whatever was going on while its outcome was patched)
+            if h['kind'] == 'timer':
+                for k_, c in enumerate(calls[:-1]):
+                    if c.outcome == 'perm' or (c.outcome == 'exc' and mode_ == 'permanent'):
+                        nxt_ = calls[k_ + 1]
+                        oc.add('C11/retried-after-final', 'timer-started-anew-after-permanent',
+                               f"timer {hid} of {uid} failed for good ({c.outcome!r}, errors={mode_}) at t={c.t1}; it was "
+                               f"invoked again at t={nxt_.t0:.4f} (retry={nxt_.retry}) in the same operator process",
+                               uid=uid, hid=hid)
+                        break
             # an ignored error counts as done: the timer goes on ticking
             o_ = h.get('opts', {})
             last = calls[-1]
